@@ -13,6 +13,7 @@ import (
 	"fmt"
 	"os"
 	"path/filepath"
+	"reflect"
 	"sort"
 	"strings"
 	"time"
@@ -53,7 +54,7 @@ func entriesFor(kind string) []string {
 		return []string{"PageCount", "Text", "Fragments", "ToMarkdown", "Chunks", "Document", "Analyze", "Lines", "Paragraphs", "Blocks", "ReadingOrder", "Headings", "Lists", "Elements",
 			"IsCharacterLevel", "IsMultiColumn", "ByColumn.Text", "JoinParagraphs.Text", "PreserveLayout.Text", "ExcludeHF.Text", "Pages(1).Text", "PageRange(1,2).Fragments", "Detect", "reader.Images", "reader.Objects"}
 	case "docx", "odt", "xlsx", "pptx", "epub", "html":
-		return []string{"PageCount", "Text", "ToMarkdown", "Chunks", "Document", "ExcludeHF.Text", "Detect",
+		return []string{"PageCount", "Text", "ToMarkdown", "Chunks", "Document", "ExcludeHF.Text", "Detect", "Reader.API",
 			// format-mismatched calls: PDF-only methods on non-PDF inputs must return errors
 			"Fragments", "Lines", "Analyze", "IsCharacterLevel", "IsMultiColumn", "Pages(1).Text"}
 	case "raw-object":
@@ -68,6 +69,16 @@ func entriesFor(kind string) []string {
 		return []string{"FromHTMLString.Text", "FromHTMLString.ToMarkdown", "FromHTMLString.Chunks"}
 	}
 	return nil
+}
+
+// kindOfPath maps the file extension to the reader kind.
+func kindOfPath(path string) string {
+	switch e := strings.ToLower(strings.TrimPrefix(filepath.Ext(path), ".")); e {
+	case "htm":
+		return "html"
+	default:
+		return e
+	}
 }
 
 func runEntry(path, entry string) (er entryResult) {
@@ -169,6 +180,21 @@ func runEntry(path, entry string) (er entryResult) {
 	case "PageRange(1,2).Fragments":
 		_, _, err := tabula.Open(path).PageRange(1, 2).Fragments()
 		set(err)
+	case "Reader.API":
+		rd, err := openFormatReader(kindOfPath(path), path)
+		if err != nil {
+			set(err)
+			return
+		}
+		calls := 0
+		var first error
+		exerciseAPI(reflect.ValueOf(rd), 0, &calls, &first)
+		if c, ok := rd.(interface{ Close() error }); ok {
+			c.Close()
+			c.Close()
+		}
+		set(first)
+		er.Msg = fmt.Sprintf("%d calls; %s", calls, er.Msg)
 	case "reader.Images":
 		// the image path of the low-level API: every image XObject of every page, decoded and converted
 		rd, err := reader.Open(path)
@@ -359,6 +385,12 @@ func runCase(c *fw.Ctx, pool *fw.Pool, cs *Case, dir string) []outcome {
 		for _, er := range rp.Results {
 			c.Count("entrypoint_calls", 1)
 			c.Count("outcome_"+er.Outcome, 1)
+			c.Count("entry:"+er.Entry+":"+er.Outcome, 1)
+			if er.Entry == "Reader.API" {
+				var n int64
+				fmt.Sscanf(er.Msg, "%d calls", &n)
+				c.Count("reader_api_method_calls_by_reflection", n)
+			}
 			if er.Outcome == "panic" {
 				outs = append(outs, outcome{sig: "panic@" + er.Site, kind: "panic", entry: er.Entry, msg: er.Msg, stack: er.Stack})
 			}
